@@ -659,6 +659,12 @@ func replayMain(r *mc.Run, trace bool) {
 		if r.ID != "C15" || rp.Mode == nil {
 			outcomes[okey]++
 		}
+		if r.ID == "C15" && rp.Mode != nil && (w.Info().Terminal || len(w.DistinctCommits()) > 0) {
+			// the search does not start a tail from such a state (an honest node has the block already, it spreads through
+			// the block path): a replay must not either
+			outcomes[okey+" not a tail start: an honest node committed in the prefix"]++
+			continue
+		}
 		if r.ID == "C15" && rp.Mode != nil {
 			w.TraceOn = trace && i == 0
 			w.Trace = nil
